@@ -213,7 +213,8 @@ def grep_audit(mods):
 
 def axioms_audit(module, theorems, timeout=600):
     """#print axioms for each theorem. Returns (ok, {thm: [axioms]}, log)."""
-    text = "import %s\n" % module + "".join("#print axioms %s\n" % t for t in theorems)
+    mods = module if isinstance(module, (list, tuple)) else [module]
+    text = "".join("import %s\n" % m for m in mods) + "".join("#print axioms %s\n" % t for t in theorems)
     rc, out = lean_run(text, timeout=timeout)
     res = {}
     # output: 'thm' depends on axioms: [a, b]   |   'thm' does not depend on any axioms
@@ -311,12 +312,13 @@ class Check:
         self.cov["theorems"] = list(theorems)
         self.cov["unproved_full_statements"] = list(unproved)
         if self.tier == "thorough" and thorough_checker:
-            ok, out = leanchecker(prop_module)
-            self.cov["leanchecker"] = "ok" if ok else out[-500:]
-            self.cov["checker_cmd"] += " && lake env leanchecker " + prop_module
-            if not ok:
-                self.fail("audit", {"theorem": "leanchecker " + prop_module, "lean_error": out[-3000:]}, nofail=True)
-                return False
+            for pm in (prop_module if isinstance(prop_module, (list, tuple)) else [prop_module]):
+                ok, out = leanchecker(pm)
+                self.cov["leanchecker"] = "ok" if ok else out[-500:]
+                self.cov["checker_cmd"] += " && lake env leanchecker " + pm
+                if not ok:
+                    self.fail("audit", {"theorem": "leanchecker " + pm, "lean_error": out[-3000:]}, nofail=True)
+                    return False
         return True
 
     # --- results ----------------------------------------------------------------------------
